@@ -91,4 +91,7 @@ PLAN = {
             H("c03_hashable", "Hashable::hashable(key) == key.get_hash() == std Hash through Hashable::Hasher; equal keys give equal values", bound="one concrete 2-label static key and its reversal; real AHash", tier="thorough", timeout=900),
         ],
     }],
+    "witnesses": [
+        {"match": r"(fn key_hasher_impl|fn eq\b|fn cmp\b|order\.verus)", "name": "fn key_hasher_impl", "src": "witness_many_labels.rs", "crate": "metrics", "file": "metrics/src/key.rs"},
+    ],
 }
